@@ -349,3 +349,128 @@ func (g *Gen) EncodeRandom(md protoreflect.MessageDescriptor, depth int) []byte 
 	}
 	return b
 }
+
+// Mutate returns a copy of d that differs from it in exactly one place (a scalar leaf, a list
+// length, a map value, a oneof choice or the presence of a sub-message), never through NaNs.
+func (g *Gen) Mutate(d *dynamicpb.Message) *dynamicpb.Message {
+	c := proto.Clone(d).(*dynamicpb.Message)
+	for try := 0; try < 20; try++ {
+		if g.mutateIn(c, 0) {
+			return c
+		}
+	}
+	// nothing populated: populate one field
+	md := c.Descriptor()
+	if md.Fields().Len() > 0 {
+		fd := md.Fields().Get(g.R.Intn(md.Fields().Len()))
+		g.Force = map[protoreflect.FieldNumber]bool{fd.Number(): true}
+		g.Fill(c, 0)
+		g.Force = nil
+	}
+	return c
+}
+
+func (g *Gen) differentScalar(fd protoreflect.FieldDescriptor, old protoreflect.Value) (protoreflect.Value, bool) {
+	for i := 0; i < 30; i++ {
+		nv := g.Scalar(fd)
+		if fd.Kind() == protoreflect.FloatKind || fd.Kind() == protoreflect.DoubleKind {
+			if nv.Float() != nv.Float() || old.Float() != old.Float() { // NaN
+				continue
+			}
+			if nv.Float() != old.Float() || math.Signbit(nv.Float()) != math.Signbit(old.Float()) {
+				return nv, true
+			}
+			continue
+		}
+		if fd.Kind() == protoreflect.BytesKind {
+			if string(nv.Bytes()) != string(old.Bytes()) {
+				return nv, true
+			}
+			continue
+		}
+		if !nv.Equal(old) {
+			return nv, true
+		}
+	}
+	return old, false
+}
+
+func (g *Gen) mutateIn(m protoreflect.Message, depth int) bool {
+	var fds []protoreflect.FieldDescriptor
+	m.Range(func(fd protoreflect.FieldDescriptor, _ protoreflect.Value) bool { fds = append(fds, fd); return true })
+	if len(fds) == 0 {
+		return false
+	}
+	fd := fds[g.R.Intn(len(fds))]
+	v := m.Get(fd)
+	switch {
+	case fd.IsMap():
+		var keys []protoreflect.MapKey
+		v.Map().Range(func(k protoreflect.MapKey, _ protoreflect.Value) bool { keys = append(keys, k); return true })
+		k := keys[g.R.Intn(len(keys))]
+		mp := m.Mutable(fd).Map()
+		if fd.MapValue().Message() != nil {
+			if depth < 3 && g.R.Intn(2) == 0 && g.mutateIn(mp.Get(k).Message(), depth+1) {
+				return true
+			}
+			mp.Clear(k)
+			if mp.Len() == 0 {
+				mp.Set(k, mp.NewValue())
+				return g.mutateIn(mp.Get(k).Message(), depth+1) || true
+			}
+			return true
+		}
+		nv, ok := g.differentScalar(fd.MapValue(), mp.Get(k))
+		if ok {
+			mp.Set(k, nv)
+		}
+		return ok
+	case fd.IsList():
+		l := m.Mutable(fd).List()
+		i := g.R.Intn(l.Len())
+		if fd.Message() != nil {
+			if depth < 3 && g.R.Intn(2) == 0 && g.mutateIn(l.Get(i).Message(), depth+1) {
+				return true
+			}
+			l.Append(l.NewElement())
+			return true
+		}
+		if g.R.Intn(3) == 0 {
+			l.Append(l.Get(i))
+			return true
+		}
+		nv, ok := g.differentScalar(fd, l.Get(i))
+		if ok {
+			l.Set(i, nv)
+		}
+		return ok
+	case fd.Message() != nil:
+		if depth < 3 && g.R.Intn(3) > 0 && g.mutateIn(m.Mutable(fd).Message(), depth+1) {
+			return true
+		}
+		if od := fd.ContainingOneof(); od != nil && od.Fields().Len() > 1 {
+			for k := 0; k < od.Fields().Len(); k++ {
+				if o := od.Fields().Get(k); o.Number() != fd.Number() {
+					m.Set(o, m.NewField(o))
+					return true
+				}
+			}
+		}
+		m.Clear(fd)
+		return true
+	default:
+		if od := fd.ContainingOneof(); od != nil && od.Fields().Len() > 1 && g.R.Intn(2) == 0 {
+			for k := 0; k < od.Fields().Len(); k++ {
+				if o := od.Fields().Get(k); o.Number() != fd.Number() {
+					m.Set(o, m.NewField(o))
+					return true
+				}
+			}
+		}
+		nv, ok := g.differentScalar(fd, v)
+		if ok {
+			m.Set(fd, nv)
+		}
+		return ok
+	}
+}
